@@ -27,6 +27,16 @@ type L struct{ F int }
 func legacyBad(l *L) {
 	l.F = 1 // want IMM01 dep=d/legacy/l.go
 }
+`}, {Name: "l_test.go", Src: `package legacy
+
+// LT is declared in a test file of an excluded directory.
+// @immutable
+type LT struct{ F int }
+
+func legacyTestBad(l *L, lt *LT) {
+	l.F = 2 // want IMM01 dep=d/legacy/l.go
+	lt.F = 2 // want IMM01 dep=d/legacy/l_test.go
+}
 `}}},
 		{Path: "ex.com/m/d", Files: []prog.File{
 			{Name: "x.go", Src: `package d
@@ -130,6 +140,11 @@ type PT struct{ F int }
 
 func pbad(x *PT) {
 	x.F = 1 // want IMM01 dep=testdata/p/p.go
+}
+`}, {Name: "p_test.go", Src: `package p
+
+func ptestBad(x *PT) {
+	x.F = 2 // want IMM01 dep=testdata/p/p.go
 }
 `}}},
 	}}
